@@ -8,7 +8,15 @@ import (
 	"github.com/kishyassin/goframe/dataframe"
 )
 
+// tiny magnitudes: sums far below any absolute rounding step a "tidy" implementation might apply
+var tinyVals = []any{1.5e-10, 2.5e-10, -4e-10, 1e-10, "2e-12", 5e-12, 0.0, 3e-11, "1e-10", -1e-10, 7.5e-300, 1e-300}
+
+var aggTiny bool
+
 func aggValue(r *Rng, nanOK bool) any {
+	if aggTiny {
+		return Pick(r, tinyVals)
+	}
 	switch r.Intn(12) {
 	case 0:
 		return r.Range(-3, 9)
@@ -34,6 +42,8 @@ func genAgg(r *Rng, tier string) *Enc {
 	e := NewEnc()
 	df := dataframe.NewDataFrame()
 	ncols := r.Range(1, 3)
+	aggTiny = r.Chance(8)
+	defer func() { aggTiny = false }()
 	n := r.SmallN()
 	if r.Chance(30) {
 		n = r.Range(4, 12)
@@ -53,7 +63,8 @@ func genAgg(r *Rng, tier string) *Enc {
 		}
 		if n > 0 && r.Chance(25) {
 			// one non-numeric cell (per AsFloat64's table) at a chosen position
-			odd := []any{"abc", nil, true, int8(3), uint(2), ""}
+			// (texts that merely START like a number are not numbers: "12abc", "1,5", "3 apples", "1.5.2")
+			odd := []any{"abc", nil, true, int8(3), uint(2), "", "12abc", "1,5", "3 apples", "1.5.2", "7 ", "0x"}
 			if huge {
 				odd = []any{"abc", nil, true, ""} // no small numbers next to 4e18: float64 sums must stay exact
 			}
@@ -137,6 +148,23 @@ func genAgg(r *Rng, tier string) *Enc {
 			}
 		}
 		left.Columns[name] = &dataframe.Column[any]{Name: name, Data: d}
+	}
+	if r.Chance(6) {
+		// operands with the same NUMBER of columns and different names whose comma/pipe/space-joined lists coincide
+		sep := Pick(r, []string{",", "|", " ", ";", "\x00", ""})
+		ln, rn := []string{"x" + sep + "y", "z"}, []string{"x", "y" + sep + "z"}
+		if sep == "" {
+			ln, rn = []string{"ab", "c"}, []string{"a", "bc"}
+		}
+		left, other = dataframe.NewDataFrame(), dataframe.NewDataFrame()
+		for j := range ln {
+			dl, dr := make([]any, n), make([]any, n)
+			for i := 0; i < n; i++ {
+				dl[i], dr[i] = aggValue(r, false), aggValue(r, false)
+			}
+			left.Columns[ln[j]] = &dataframe.Column[any]{Name: ln[j], Data: dl}
+			other.Columns[rn[j]] = &dataframe.Column[any]{Name: rn[j], Data: dr}
+		}
 	}
 	hasFill := r.Bool()
 	fill := Pick(r, []any{0, 1.5, "f", nil})
